@@ -407,8 +407,9 @@ def public(row):
 def colourise(hist, texts, variant=0):
     """Colour concrete lines the way git does with its default palette. Variants differ in reset form
     (ESC[m / ESC[0m), in per-marker vs per-line colouring, and in whitespace-error highlighting."""
-    R = "\x1b[m" if variant % 2 == 0 else "\x1b[0m"
-    out = []
+    R = "\x1b[m" if variant % 2 == 0 or variant == 7 else "\x1b[0m"
+    wsall = variant == 7      # git diff --ws-error-highlight=all: every hunk line is written marker first, then its text as one
+    out = []                  # coloured piece (for context lines: a reset, the text, a reset), then the whitespace error
     for l, t in zip(hist, texts):
         c = l["c"]
         if c == "commit":
@@ -419,6 +420,12 @@ def colourise(hist, texts, variant=0):
         elif c == "hh":
             i = t.index(" @@") + 3
             out.append("\x1b[36m" + t[:i] + R + t[i:])
+        elif wsall and c in ("minus", "zero"):
+            body = t[1:]
+            stripped = body.rstrip(" \t\r")
+            ws = body[len(stripped):]
+            col = "\x1b[31m" if c == "minus" else ""
+            out.append((col + t[0] + R if col else t[0]) + (col or R) + stripped + R + ("\x1b[41m" + ws + R if ws else ""))
         elif c == "minus":
             if variant // 2 % 2 == 0:
                 out.append("\x1b[31m" + t + R)
